@@ -1,7 +1,7 @@
 import json, os, re, shutil, sys
-# usage: seedkeep.py <prop> <k> "<needs>" 
+# usage: seedkeep.py <prop> <k> "<needs>" [<source change dir>]   -> /verif/seeded/<prop>-<k>/
 prop, k, needs = sys.argv[1], sys.argv[2], sys.argv[3]
-src = "/tmp/seed-%s-out/change%s" % (prop.lower(), k)
+src = sys.argv[4] if len(sys.argv) > 4 else "/tmp/seed-%s-out/change%s" % (prop.lower(), k)
 dst = "/verif/seeded/%s-%s" % (prop, k)
 os.makedirs(dst, exist_ok=True)
 shutil.copy(src + "/patch.diff", dst + "/patch.diff")
